@@ -56,7 +56,8 @@ def sequences(ctx):
                             for st in ((6, 2) if pr in ([2, 7], [3, 7, 21]) else (6,)):
                                 if ctx.tier == 'quick' and ctx.rng.random() < 1 - 0.45 * K.SCALE and pr not in ([2, 7], [2, 8], [2, 6]):
                                     continue
-                                sc = base(pv=pv, ks=cks, ps=[7, 3, pks] if has_ps else None, known=known)
+                                sc = base(pv=pv, ks=cks, ps=[7, 3, pks] if has_ps else None, known=known,
+                                          nids=[1, 4, 2][len(items) % 3], metrics=bool(len(items) % 2), markers=bool(has_ps and len(items) % 5 == 0))
                                 run = H.Run(sc)
                                 orc = K.Oracle(sc, run, PID)
                                 obs = []
